@@ -57,6 +57,7 @@ class KFile:
         self.contracts = []  # (file, regex, [lines])
         self.appends = []  # (file, [lines])
         self.harnesses = []
+        self.needs = []
         self._parse()
 
     def _parse(self):
@@ -66,6 +67,8 @@ class KFile:
             l = lines[i]
             if l.startswith("//@module "):
                 self.module = l.split()[1]
+            elif l.startswith("//@needs "):
+                self.needs += l.split()[1:]
             elif l.startswith("//@contract "):
                 m = re.match(r"//@contract (\S+) /(.*)/\s*$", l)
                 if not m:
@@ -87,9 +90,11 @@ class KFile:
             elif l.startswith("//@K "):
                 attrs = dict(kv.split("=", 1) for kv in l[len("//@K "):].split())
                 j = i + 1
-                while j < len(lines) and not re.match(r"\s*(pub(\(crate\))? )?fn (\w+)", lines[j]):
+                hrx = r"\s*(?:(?:pub(?:\(crate\))? )?fn (\w+)|\w+!\((\w+))"
+                while j < len(lines) and not re.match(hrx, lines[j]):
                     j += 1
-                name = re.match(r"\s*(pub(\(crate\))? )?fn (\w+)", lines[j]).group(3)
+                mm = re.match(hrx, lines[j])
+                name = mm.group(1) or mm.group(2)
                 self.harnesses.append(Harness(self, name, attrs, self.module, self.modname))
             i += 1
         if self.module is None:
@@ -119,6 +124,17 @@ def prepare(scratch, kfiles):
     Append/insert only: nothing in the copied sources is rewritten or deleted."""
     copy_repo(scratch)
     applied = []
+    # close over //@needs (helper modules of other files)
+    todo = list(kfiles)
+    seen = {kf.base for kf in todo}
+    while todo:
+        kf = todo.pop()
+        for nd in kf.needs:
+            if nd not in seen:
+                seen.add(nd)
+                nk = KFile(os.path.join(KDIR, nd + ".rs"))
+                kfiles = kfiles + [nk]
+                todo.append(nk)
     for kf in kfiles:
         dst = os.path.join(scratch, os.path.dirname(kf.module), kf.modname + ".rs")
         shutil.copy(kf.path, dst)
@@ -126,7 +142,7 @@ def prepare(scratch, kfiles):
         if not os.path.exists(modfile):
             raise Undecided("lost anchor: module file %s missing" % kf.module)
         with open(modfile, "a") as f:
-            f.write('\n#[cfg(kani)]\n#[path = "%s.rs"]\nmod %s;\n' % (kf.modname, kf.modname))
+            f.write('\n#[cfg(kani)]\n#[path = "%s.rs"]\npub(crate) mod %s;\n' % (kf.modname, kf.modname))
         applied.append("mod %s appended to %s" % (kf.modname, kf.module))
         for (file, rx, body) in kf.contracts:
             p = os.path.join(scratch, file)
@@ -174,7 +190,7 @@ def run_harnesses(scratch, feat, harnesses, jobs=8):
     by_id = {r["harness_id"]: r for r in d.get("verification_results", {}).get("results", [])}
     errs = {e["harness_id"]: e for e in d.get("error_details", [])}
     pdet = {p["harness_id"]: p["property_details"] for p in d.get("property_details", [])}
-    cb = {c["harness_id"]: c for c in d.get("cbmc", [])}
+    cb = {c["harness_id"]: c for c in (d.get("cbmc") or []) if c}
     for h in harnesses:
         r = by_id.get(h.full)
         if r is None:
@@ -190,7 +206,7 @@ def run_harnesses(scratch, feat, harnesses, jobs=8):
             "seconds": r.get("duration_ms", 0) / 1000.0,
             "checks": pd.get("total_properties", len(r.get("checks", []))),
             "covers": ncover,
-            "solver_s": cb.get(h.full, {}).get("cbmc_stats", {}).get("runtime_decision_procedure_s"),
+            "solver_s": ((cb.get(h.full) or {}).get("cbmc_stats") or {}).get("runtime_decision_procedure_s"),
             "error": errs.get(h.full, {}),
         }
         st = r.get("status")
